@@ -96,7 +96,7 @@ func c11Child() {
 	if adv, err := idx.Advanced(); err == nil {
 		engine0, _ = adv.(*scorch.Scorch)
 	}
-	var seq int64
+	var seq, newField int64
 	next := func() int64 { return atomic.AddInt64(&seq, 1) }
 	var wg sync.WaitGroup
 	nWorkers := 6 + r.Intn(6)
@@ -130,15 +130,25 @@ func c11Child() {
 				switch rr.Intn(13) {
 				case 0, 1:
 					call(g, k, "index", func() error {
-						return idx.Index(fmt.Sprintf("g%d-%d", g, rr.Intn(40)), map[string]interface{}{"body": "alpha beta " + fmt.Sprint(k), "n": float64(k)})
+						doc := map[string]interface{}{"body": "alpha beta " + fmt.Sprint(k), "n": float64(k)}
+						// field names nobody has used yet, the same ones for all workers at about the same time: the
+						// engines register a new field on first use, from whichever call gets there first
+						_ = atomic.AddInt64(&newField, 1)
+						nf := time.Now().UnixNano() / int64(3*time.Millisecond) // one set of names per 3 ms window, for everybody
+						for j := 0; j < 12; j++ {
+							doc[fmt.Sprintf("nf%d_%d", nf, j)] = "x"
+						}
+						return idx.Index(fmt.Sprintf("g%d-%d", g, rr.Intn(40)), doc)
 					})
 				case 2:
 					call(g, k, "delete", func() error { return idx.Delete(fmt.Sprintf("g%d-%d", g, rr.Intn(40))) })
 				case 3:
 					call(g, k, "batch", func() error {
 						b := idx.NewBatch()
+						nf := time.Now().UnixNano() / int64(3*time.Millisecond)
 						for j := 0; j < 5; j++ {
-							_ = b.Index(fmt.Sprintf("g%d-%d", g, rr.Intn(40)), map[string]interface{}{"body": "gamma delta", "n": float64(j)})
+							_ = b.Index(fmt.Sprintf("g%d-%d", g, rr.Intn(40)), map[string]interface{}{"body": "gamma delta", "n": float64(j),
+								fmt.Sprintf("nf%d", nf): "y", fmt.Sprintf("nh%d-%d", nf, j%2): "z"})
 						}
 						b.Delete(fmt.Sprintf("g%d-%d", g, rr.Intn(40)))
 						return idx.Batch(b)
